@@ -150,3 +150,7 @@ func (r *WeightedRoundRobinSelection) VerifTotalWeight() int { return r.totalWei
 func (s QueryHashSelection) VerifFallback() Selector  { return s.fallback }
 func (s HeaderHashSelection) VerifFallback() Selector { return s.fallback }
 func (s CookieHashSelection) VerifFallback() Selector { return s.fallback }
+
+// VerifDialError wraps err the way the HTTP transport's dialer does, so that a probe
+// transport outside this package can report "the connection could not be established".
+func VerifDialError(err error) error { return DialError{err} }
